@@ -38,6 +38,9 @@ def case_lines(ctx, cfg):
 
     (g,) = cfg
     g = tuple(g)
+    M_PROJ = np.array([[2.0, 1, 0], [0, 1, 1], [1, 1, 1]])
+    T_PROJ = G.Transformation(M_PROJ)
+    MIT_PROJ = np.linalg.inv(M_PROJ).T
     L = lattice(3, 3 if (ctx.tier == "thorough" or max(map(abs, g)) > 2) else 2)
     rows = [h for h in L if X.irank([list(g), list(h)]) == 2]
     mats = []
@@ -60,6 +63,19 @@ def case_lines(ctx, cfg):
             ctx.fail("from_lines:components", "components", inputs, [g, h], e if e is not None else [x.array for x in comp])
             return
         mats.append(c.array)
+        # history: the conic has answered is_degenerate / components; its image under a projective map splits into the
+        # images of the two lines (M^-T g, M^-T h), and the original still splits as before
+        td, e = ctx.call(lambda: T_PROJ * c)
+        comp2, e2 = ctx.call(lambda: td.components) if e is None else (None, e)
+        ctx.trace()
+        wg, wh = MIT_PROJ @ np.array(g, float), MIT_PROJ @ np.array(h, float)
+        if e2 is not None or len(comp2) != 2 or not unordered_pair_eq((comp2[0].array, comp2[1].array), (wg, wh)):
+            ctx.fail("from_lines:components-of-image-after-queries", "(t*c).components", inputs, [wg, wh], e2 if e2 is not None else [x.array for x in comp2])
+            return
+        comp3, e3 = ctx.call(lambda: c.components)
+        if e3 is not None or not unordered_pair_eq((comp3[0].array, comp3[1].array), (np.array(g, float), np.array(h, float))):
+            ctx.fail("from_lines:components:original-after-derivation", "components", inputs, [g, h], e3 if e3 is not None else [x.array for x in comp3])
+            return
     # the same conics as one collection
     QC = G.QuadricCollection(np.array(mats))
     deg, e = ctx.call(lambda: QC.is_degenerate)
